@@ -15,6 +15,7 @@ import (
 	"github.com/nyaruka/gocommon/i18n"
 	"github.com/nyaruka/gocommon/urns"
 	"github.com/nyaruka/goflow/assets"
+	"github.com/nyaruka/goflow/flows/definition"
 	"github.com/nyaruka/goflow/flows/inspect"
 	"github.com/nyaruka/goflow/assets/static"
 	"github.com/nyaruka/goflow/envs"
@@ -524,6 +525,8 @@ func runC20(c *Ctx) {
 	}
 	// ---- K: what inspection reads off one context path ----
 	c20ContextRefs(c)
+	// ---- K: the merge of extracted results ----
+	c20ResultSpecs(c)
 }
 
 // statically named references @top.key / @(… top.key …) in a template
@@ -588,6 +591,77 @@ func c20ContextRefs(c *Ctx) {
 		}
 		c.Eval("ctxref|" + strings.ToLower(strings.Join(path[:len(path)-1], ".")) + "|" + strings.SplitN(exp, ":", 2)[0])
 		c.Model("ctxref", "ctxref "+strings.Join(enc, ","), exp, desc)
+	}
+}
+
+// K:rspecs — flows.NewResultSpecs (the merge of the extracted results into the inspection's results) against its model: keys
+// shared by several results on the same and on other nodes, categories repeated in other spellings, results without categories
+func c20ResultSpecs(c *Ctx) {
+	r := c.Rng
+	names := []string{"Color", "Fav Color", "Status", "N"}
+	catPool := []string{"Red", "red", "RED", "Blue", "Other", "Yes", "yes", "Pending", "Known", ""}
+	nodeUUID := func(k int) string { return fmt.Sprintf("1fb823c3-599a-41e9-b59b-65826600000%d", k) }
+	var nodes []flows.Node
+	for k := 0; k < 4; k++ {
+		nodes = append(nodes, definition.NewNode(flows.NodeUUID(nodeUUID(k)), nil, nil, []flows.Exit{definition.NewExit(flows.ExitUUID(fmt.Sprintf("3c158842-24f3-4a40-bea4-75229520000%d", k)), "")}))
+	}
+	for i := 0; i < c.N(1500, 60000); i++ {
+		n := r.Intn(7)
+		var extracted []flows.ExtractedResult
+		var enc []string
+		for k := 0; k < n; k++ {
+			ni, nd := r.Intn(len(names)), r.Intn(len(nodes))
+			var cats []string
+			for q := r.Intn(4); q > 0; q-- {
+				cats = append(cats, Pick(r, catPool))
+			}
+			var hs []string
+			for _, ct := range cats {
+				hs = append(hs, hx(ct))
+			}
+			cs := "_"
+			if len(hs) > 0 {
+				cs = strings.Join(hs, ",")
+			}
+			extracted = append(extracted, flows.ExtractedResult{Node: nodes[nd], Info: flows.NewResultInfo(names[ni], append([]string{}, cats...))})
+			enc = append(enc, fmt.Sprintf("%d:%d:%d:%s", ni, ni, nd, cs))
+		}
+		desc := map[string]any{"extracted": enc}
+		exp := "_"
+		if c.Guard("K-rspecs", "panic:NewResultSpecs", desc, func() {
+			var out []string
+			for _, sp := range flows.NewResultSpecs(extracted) {
+				ni := -1
+				for k, nm := range names {
+					if nm == sp.Name {
+						ni = k
+					}
+				}
+				var hs, ns []string
+				for _, ct := range sp.Categories {
+					hs = append(hs, hx(ct))
+				}
+				for _, u := range sp.NodeUUIDs {
+					ns = append(ns, u[len(u)-1:])
+				}
+				cs := "_"
+				if len(hs) > 0 {
+					cs = strings.Join(hs, ",")
+				}
+				out = append(out, fmt.Sprintf("%d:%d:%s:%s", ni, ni, cs, strings.Join(ns, ",")))
+			}
+			if len(out) > 0 {
+				exp = strings.Join(out, ";")
+			}
+		}) {
+			continue
+		}
+		op := "_"
+		if len(enc) > 0 {
+			op = strings.Join(enc, ";")
+		}
+		c.Eval(fmt.Sprintf("rspecs|%d|%d", n, strings.Count(exp, ";")))
+		c.Model("rspecs", "rspecs "+op, exp, desc)
 	}
 }
 
